@@ -4,6 +4,8 @@
     all file-state vectors of length <= 3) and MCXzDiff: transcription of the scripts => contract.
     Strict configurations check the clauses the scripts are known to deviate from (reported with narrow keys,
     only when the replay confirms them on the real scripts).
+(G/R) GenXzDiff suffix matrix (breadth-first): every suffix in both operand positions x every suffix / none, same and
+    different contents, xzdiff and xzcmp, one-operand form, "-" first.
 (G/R) GenXzGrep / GenXzDiff (tlc -simulate, seeded): plans = program name, label method, option words, pattern
     form/class, files with state, suffix and hostile NAME CLASS, with everything the model predicts.  The driver
     materialises every plan in a scratch directory, runs the real scripts (bindir first in PATH; GREP pointing
@@ -33,12 +35,35 @@ PAT_LITERALS = {
     "btick": b"needle`touch CANARY`", "semi": b"needle;touch CANARY;", "ampipe": b"needle&touch CANARY|x",
     "bslash": b"nee\\dle", "glob": b"needle*?[a]", "newline": b"needle\nzzznothere", "bad": b"needle\\(",
 }
-PATFILE_NAMES = [b"pat file", b"pat'$(touch CANARY)", b"pat;f&|"]
+PATFILE_NAMES = [b"pat file", b"pat'$(touch CANARY)", b"pat;f&|", b"patX\n;touch CANARY;'q", b"pat'X"]
+DIFF_OPT_TEXTS = [b"it's", b"aX\n;touch CANARY;'b", b"q'X", b"plain", b"'", b"X\n'"]
+# classes "esc:<letters>": words over the alphabet of the scripts' own escaping code (sed script "escape"):
+# X = the sentinel letter, q = single quote, n = newline, c = a command
+ESC_TOKENS = {"X": b"X", "q": b"'", "n": b"\n", "c": b";touch CANARY;"}
+
+def esc_bytes(cls):
+    return b"".join(ESC_TOKENS[ch] for ch in cls[4:])
+
+def name_stem(cls, i):
+    if cls.startswith("esc:"):
+        return b"%d" % i + esc_bytes(cls)       # index first: the end of the name (X, quote, newline) is preserved
+    return NAME_STEMS[cls] % i
+
+def pat_literal(cls, base=b"needle"):
+    if cls.startswith("esc:"):
+        lit = base + esc_bytes(cls)
+    elif cls == "never":
+        return NEVER
+    else:
+        return PAT_LITERALS[cls]
+    # an empty line in a pattern list matches everything: keep the shape, fill the empty alternatives
+    return b"\n".join(piece or b"zzzEMPTY" for piece in lit.split(b"\n"))
+
 NEVER = b"zzzNOTHERE"
 FILLERS = [b"alpha", b"beta gamma", b"delta", b"epsilon zeta", b"eta", b"theta"]
 FORMAT_OF_SUFFIX = {".xz": "xz", "": "xz", ".txz": "xz", "-xz": "xz", ".txt": "xz",
-                    ".lzma": "lzma", ".tlz": "lzma", ".lz": "lzip",
-                    ".gz": "gz", ".tgz": "gz", "-z": "gz", "_z": "gz", "-gz": "gz",
+                    ".lzma": "lzma", "-lzma": "lzma", ".tlz": "lzma", ".lz": "lzip", "-lz": "lzip",
+                    ".gz": "gz", ".tgz": "gz", ".taz": "gz", "-z": "gz", ".z": "gz", ".Z": "gz", "_z": "gz", "-gz": "gz",
                     ".bz2": "bz2", ".tbz2": "bz2", "-bz2": "bz2", ".tbz": "bz2"}
 
 def regex_quote(lit, matcher):
@@ -48,7 +73,7 @@ def regex_quote(lit, matcher):
     return b"".join((b"\\" + bytes([c])) if c in special else bytes([c]) for c in lit)
 
 def pattern_text(pcl, matcher):
-    lit = PAT_LITERALS[pcl]
+    lit = pat_literal(pcl)
     if pcl == "bad":
         return b"needle(" if matcher == "E" else lit
     return b"\n".join(regex_quote(part, matcher) for part in lit.split(b"\n"))
@@ -78,7 +103,7 @@ def xz_corrupt_late(data):
     x[len(x) - 12 - isz - 1] ^= 0xFF                          # last byte of the block's CRC32: all data is output first
     return bytes(x)
 
-SUBST = re.compile(rb"@([pqr123])")
+SUBST = re.compile(rb"@([pqro123])")
 
 class World:
     """Tools shared by all plans of a run."""
@@ -151,14 +176,14 @@ def flat_has_invert(gopts):
 
 def grep_content(kind, lit, invert):
     first = lit.split(b"\n")[0]
-    pat1 = b"xx -" + first + b" yy"; pat2 = b"yy -" + first + b" xx end"
+    pat1 = b"ww -" + first + b" yy"; pat2 = b"yy -" + first + b" ww end"      # no letter x: "X" is a pattern of the esc classes
     f = FILLERS
     if kind in ("match", "plainmatch", "clmatch", "pipe"):
         lines = [f[0], pat1, f[1], f[2], f[3], pat1.upper(), f[4], f[5], pat2, f[0]]
     elif invert:
         lines = [pat1, pat2]
     else:
-        lines = [f[0], f[1], f[2], b"xx -noodle yy", f[3], f[4], f[5]]
+        lines = [f[0], f[1], f[2], b"ww -noodle yy", f[3], f[4], f[5]]
     return b"\n".join(lines) + b"\n"
 
 def materialise_grep(W, plan, d):
@@ -166,13 +191,13 @@ def materialise_grep(W, plan, d):
     matcher = plan["matcher"] or {"xzegrep": "E", "xzfgrep": "F"}.get(plan["prog"], "G")
     invert = flat_has_invert(plan["gopts"])
     pat = pattern_text(plan["pcl"], matcher)
-    lit = PAT_LITERALS[plan["pcl"]]
-    words = {b"p": pat, b"r": NEVER}
+    lit = pat_literal(plan["pcl"])
+    words = {b"p": pat, b"r": b"\n".join(regex_quote(x, matcher) for x in pat_literal(plan.get("rcl", "never"), NEVER).split(b"\n"))}
     names = {}; seen = {}
     for i, m in enumerate(plan["meta"]):
         if m["kind"] == "stdin":
             continue
-        words[str(i + 1).encode()] = NAME_STEMS[m["ncls"]] % (i + 1)
+        words[str(i + 1).encode()] = name_stem(m["ncls"], i + 1)
     if any("@q" in a for a in plan["argv"]):
         pf = PATFILE_NAMES[len(plan["argv"]) % len(PATFILE_NAMES)]
         words[b"q"] = pf
@@ -186,7 +211,7 @@ def materialise_grep(W, plan, d):
         name = sub(m["tok"]); names[m["tok"]] = name
         suffix = m["tok"].split("@", 1)[1][1:]
         fmt = FORMAT_OF_SUFFIX[suffix]
-        content = W.big(b"xx -" + lit.split(b"\n")[0] + b" yy BIG")[0] if kind == "big" else grep_content(kind, lit, invert)
+        content = W.big(b"ww -" + lit.split(b"\n")[0] + b" yy BIG")[0] if kind == "big" else grep_content(kind, lit, invert)
         if kind in ("match", "nomatch"):
             blob = compress(content, fmt); data = content
         elif kind in ("plainmatch", "plainnomatch"):
@@ -198,7 +223,7 @@ def materialise_grep(W, plan, d):
         elif kind in ("clmatch", "clnomatch"):
             blob = xz_corrupt_late(content); data = content
         elif kind == "big":
-            blob = W.big(b"xx -" + lit.split(b"\n")[0] + b" yy BIG")[1]; data = content
+            blob = W.big(b"ww -" + lit.split(b"\n")[0] + b" yy BIG")[1]; data = content
         elif kind == "kill":
             blob = b"KILLME\n"; data = b""
         elif kind == "pipe":
@@ -220,6 +245,12 @@ def materialise_grep(W, plan, d):
         if g["has"]:
             gargs.append(sub(g["a"]))
     return dict(argv=argv, names=names, seen=seen, stdin=stdin_blob, gargs=gargs)
+
+def sub_words(plan, tok):
+    """substitute only the pattern placeholders of an option word"""
+    matcher = plan["matcher"] or {"xzegrep": "E", "xzfgrep": "F"}.get(plan["prog"], "G")
+    w = {b"p": pattern_text(plan["pcl"], matcher), b"r": pat_literal(plan.get("rcl", "never"), NEVER), b"q": b"patfile"}
+    return re.sub(rb"@([pqr])", lambda mm: w[mm.group(1)], tok.encode())
 
 LBL = b"\x01L\x01"
 def relabel(out, name):
@@ -250,6 +281,9 @@ def replay_grep(W, idx, plan):
     if before != after:
         probs.append(("replay:grep:canary", "directory changed: %r" % (sorted(set(after) ^ set(before))[:5],)))
     oc = plan["outcome"]
+    # xzgrep.in:148 sends an option word through the quote-escaping code only if a character FOLLOWS the quote
+    # ((*\'?*) instead of (*\'*)): a glued option word that ENDS in a quote breaks the eval'ed command line
+    glued_q = [g["o"] for g in plan["gopts"] if not g["has"] and "@" in g["o"] and sub_words(plan, g["o"]).endswith(b"'")]
     if rc != plan["exit"]:
         probs.append(("replay:grep:status:%s" % oc, "exit status %d, model predicts %d" % (rc, plan["exit"])))
     if oc in ("ran", "killed"):
@@ -319,6 +353,10 @@ def replay_grep(W, idx, plan):
     else:
         if out:
             probs.append(("replay:grep:stdout:%s" % oc, "stdout %r on a usage error" % out[:200]))
+    if glued_q and probs and oc in ("ran", "killed"):
+        probs = [("quoting:grep:glued-option-ends-in-quote",
+                  "option word %r ends in a single quote: exit status %d (model %d), stderr %r, new files %r; first symptom %s"
+                  % (glued_q, rc, plan["exit"], err[:200], sorted(set(after) - set(before))[:3], probs[0][0]))]
     shutil.rmtree(d, ignore_errors=True)
     return probs, info
 
@@ -329,7 +367,8 @@ def materialise_diff(W, plan, d):
     words = {}
     for i, m in enumerate(plan["meta"]):
         if m["kind"] != "stdin":
-            words[str(i + 1).encode()] = NAME_STEMS[m["ncls"]] % (i + 1)
+            words[str(i + 1).encode()] = name_stem(m["ncls"], i + 1)
+    words[b"o"] = DIFF_OPT_TEXTS[(len(plan["argv"]) + len(plan["meta"][0]["ncls"] if plan["meta"] else "")) % len(DIFF_OPT_TEXTS)]
     sub = lambda tok: SUBST.sub(lambda mm: words[mm.group(1)], tok.encode())
     content = dict(DIFF_CONTENT); content["big"] = W.big(b"BIG first line")[0]
     raw = {}
@@ -371,7 +410,9 @@ def materialise_diff(W, plan, d):
                 f.write(content[plan["stem"]])
     sc = content[plan["sin"]["c"]]
     stdin_blob = sc if plan["sin"]["cond"] == "plain" else compress(sc, "xz")
-    return dict(argv=[sub(a) for a in plan["argv"]], raw=raw, stdin=stdin_blob, content=content)
+    return dict(argv=[sub(a) for a in plan["argv"]], raw=raw, stdin=stdin_blob, content=content,
+                stemname=sub(plan["stemname"]) if plan["stemname"] else b"",
+                copts=[sub(a) for a in plan["copts"]])
 
 def diff_formats(plan):
     return set(FORMAT_OF_SUFFIX[m["tok"].split("@", 1)[1][1:]] for m in plan["meta"] if m["kind"] != "stdin")
@@ -381,7 +422,7 @@ def norm_diff_out(out, copts, prog):
         return b"Binary files differ\n"
     if prog == "xzcmp" or any(o in ("-q", "--brief", "-s") for o in copts):
         return b"<some output>" if out else b""
-    if any(o in ("-u", "-U1") for o in copts):
+    if any(o in ("-u", "-U1") or o.startswith("--label=") for o in copts):
         i = out.find(b"@@ ")
         return out[i:] if i >= 0 else out
     return out
@@ -418,7 +459,7 @@ def replay_diff(W, idx, plan):
                 open(p, "wb").write(b"")
             paths.append(p)       # "nofile": the path does not exist
         tool = W.tools["cmp"] if plan["prog"] == "xzcmp" else W.tools["diff"]
-        orc, oout, oerr = sh([tool] + plan["copts"] + ["--"] + paths, od, {"PATH": os.environ.get("PATH", ""), "LC_ALL": "C"})
+        orc, oout, oerr = sh([tool] + M["copts"] + ["--"] + paths, od, {"PATH": os.environ.get("PATH", ""), "LC_ALL": "C"})
         shutil.rmtree(od, ignore_errors=True)
         if orc != plan["cmpst"]:
             raise MachineryError("harness: %s on the model's views returns %d, model says %d (%r)" % (tool, orc, plan["cmpst"], plan["views"]))
@@ -436,6 +477,11 @@ def replay_diff(W, idx, plan):
             probs.append(("replay:diff:version", "stdout %r" % out[:200]))
     elif oc != "ran" and out:
         probs.append(("replay:diff:stdout:%s" % oc, "stdout %r" % out[:200]))
+    # xzdiff.in:95-103 computes $FILE with `expr` inside a command substitution, which strips trailing newlines
+    if probs and oc == "ran" and len(plan["ops"]) == 1 and plan["stemname"] and M["stemname"].endswith(b"\n"):
+        probs = [("quoting:diff:one-operand-stem-ends-in-newline",
+                  "FILE1 minus its suffix ends in a newline (%r): exit status %d (model %d), stderr %r; first symptom %s"
+                  % (M["stemname"], rc, plan["exit"], err[:200], probs[0][0]))]
     shutil.rmtree(d, ignore_errors=True)
     return probs, info
 
@@ -487,6 +533,7 @@ def run(ctx):
         futs = [(j, ex.submit(tlc.run, j[1], cfg=j[2], workers=j[3], timeout=j[4], coverage=(j[5] == "cov" or j[1] == "MCXzDiff" and j[5] is True))) for j in tlc_jobs(ctx)]
         fg = ex.submit(tlc.run, "GenXzGrep", workers=1, timeout=900, simulate=pool_grep, depth=90, seed=ctx.seed)
         fd = ex.submit(tlc.run, "GenXzDiff", workers=1, timeout=900, simulate=pool_diff, depth=60, seed=ctx.seed)
+        fm = ex.submit(tlc.run, "GenXzDiff", cfg="GenXzDiffMatrix.cfg", workers=1, timeout=600)
         strict = {}
         for j, f in futs:
             r = f.result()
@@ -501,17 +548,23 @@ def run(ctx):
                 st = tlc.trace_states(r.out)
                 strict[j[6]] = dict(argv=st[0].get("argv") if st else None, final={k: v for k, v in (st[-1] if st else {}).items()
                                                                                     if k in ("out", "fl", "exit", "views", "labelOK", "sin")})
-        g = fg.result(); dgen = fd.result()
+        g = fg.result(); dgen = fd.result(); mgen = fm.result()
     ctx.add_tlc("GenXzGrep(simulate %d)" % pool_grep, g)
     ctx.add_tlc("GenXzDiff(simulate %d)" % pool_diff, dgen)
+    ctx.add_tlc("GenXzDiff(suffix matrix, breadth-first)", mgen, exhaustive=True)
+    mp = [p for p in plans_from_tlc(mgen.out) if all(W.have[f] for f in diff_formats(p))]
+    if len(mp) < 500:
+        raise MachineryError("suffix matrix produced only %d plans" % len(mp))
     gp = [p for p in plans_from_tlc(g.out) if all(W.have[f] for f in grep_needed_formats(p))]
     dp = [p for p in plans_from_tlc(dgen.out) if all(W.have[f] for f in diff_formats(p))]
     if len(gp) < n_grep // 2 or len(dp) < n_diff // 2:
         raise MachineryError("plan generation produced only %d / %d plans" % (len(gp), len(dp)))
     gsel = select(gp, n_grep, ("sed-context",))
     hh = [p for p in gp if p.get("hhconf") and p not in gsel][:4]          # -H ... -h plans are rare: always include some
-    gsel += hh
-    dsel = select(dp, n_diff, ("stdin-second-operand",))
+    gq = [p for p in gp if p["outcome"] == "ran" and p not in gsel and
+          any(not g["has"] and "@" in g["o"] and sub_words(p, g["o"]).endswith(b"'") for g in p["gopts"])][:3]
+    gsel += hh + gq
+    dsel = select(dp, n_diff, ("stdin-second-operand",)) + mp
     ctx.log("plans: xzgrep %d (pool %d), xzdiff %d (pool %d); strict-contract deviations found by TLC: %s"
             % (len(gsel), len(gp), len(dsel), len(dp), sorted(strict)))
     # ---------------- (R)
@@ -548,7 +601,8 @@ def run(ctx):
         len(gsel), len(dsel), {k: v for k, v in stats.items() if not k.startswith("name:")}))
     ctx.assumptions += [
         "shell word splitting, quoting, eval and sed escaping are OBSERVED on the hostile name/pattern classes "
-        "(newline, quotes, ;, \\, &, |, leading dash, $(...), backticks, glob characters, colon, spaces), not modelled: "
+        "(newline, quotes, ;, \\, &, |, leading dash, $(...), backticks, glob characters, colon, spaces, and all words of "
+        "length 2..4 over the scripts' own escaping alphabet: sentinel X, quote, newline, command), not modelled: "
         "the TLA+ models treat words as opaque placeholders and decide which files are read, labels, and exit status",
         "grep semantics are per file (one grep per decompressed file): the group separator GNU grep prints between "
         "files with -A/-B/-C is not demanded; stdin may be labelled '-' or '(standard input)'",
